@@ -1132,14 +1132,19 @@ def run(tier, seed, replay=None):
                        "(bytes 0,1 exhaustively; tracker words; first x last byte; perturbed own prefix; all lengths "
                        "0..64 and sampled larger) and computes the expected class and policy verdict, compared with "
                        "DataChecker.* and TunnelExitSocket.is_allowed under 8 flag sets; recorded executions of a real "
-                       "exit node (1- and 2-hop circuits, recording outside transports) are validated by TLC. "
+                       "exit node (1- and 2-hop circuits, recording outside transports) are validated by TLC, incl. "
+                       "datagrams from / data towards outside addresses the socket sent allowed packets to, was asked "
+                       "to send to, resolved or accepted datagrams from (history model ExitPolicy_hist_*.cfg). "
                        "non-trivial = enumerated packets falling in some class + distinct (flags, event kind, source, "
-                       "destination kind, socket state, outcome, packet head) situations of the traces")
+                       "destination kind, socket state, outcome, packet head) situations of the traces + distinct "
+                       "(flags, direction, history of the address, socket state, packet head) situations")
     ctx.assumptions += ["the outside world is reached only through loop.create_datagram_endpoint transports and "
                         "loop.getaddrinfo (replaced by recording fakes)",
                         "a domain name that resolves to 0.0.0.0 is outside the property (only the destination field "
                         "0.0.0.0:0 of tunnelled data is the null address)",
-                        "safety reading: dropping allowed traffic is never a violation"]
+                        "safety reading: dropping allowed traffic is never a violation",
+                        "the filter on what comes back from outside is the stateless one of the statement: no outside "
+                        "address is exempt because of earlier traffic with it"]
     rng = random.Random(seed)
     random.seed(seed)
     with ThreadPoolExecutor(max_workers=5) as ex:
